@@ -231,7 +231,7 @@ def replay(rp):
     P = lib.import_repo()
     if rp.get("kind") == "engine":
         s = "".join(chr(c) for c in rp["source"])
-        out = ec.replay_case(P, rp["grammar"], s, rp["offset"], rp.get("mode", MODE), decoy=rp.get("decoy"))
+        out = ec.replay_case(P, rp["grammar"], s, rp["offset"], rp.get("mode", MODE), decoy=rp.get("decoy"), disturbance=rp.get("disturb"))
         print("implementation now:", out)
         print("recorded implementation:", rp["implementation"])
         print("reference (spec):", rp.get("reference"))
